@@ -497,7 +497,7 @@ def r151(facts, res):
                     res.bad(R, key, loc_of(body, bb),
                             'iteration order of a RandomState hash container reaches an ordered result: ' + desc,
                             {'function': body.path, 'container': st, 'problems': problems})
-    res.floor(R, 'RandomState iteration sources', n, 22)
+    res.floor(R, 'RandomState iteration sources', n, 18)
     res.count('R15.1 auto-classified', nauto)
     res.count('R15.1 listed exceptions used', nexc)
     # positive control: the classifier must flag a Vec::push inside a loop over a RandomState map
